@@ -56,6 +56,25 @@ def iface_parts(iface):
     return list(iface.StructNames()), list(iface.ProtocolStructNames()), list(iface.MessageNames())
 
 
+def event_sigs(iface, kind, table):
+    """INTERFACE ORACLE of C16_ev_block_is_ref: [[event, get_event_signature(event, False), get_event_signature(event, True)], ...] for the
+    generator's events (the table's, then the interface's other structs), as the real Language object of the back end prints them"""
+    from kojen import LanguageCPP, LanguageCsharp, LanguagePython
+    lang = {"cpp": LanguageCPP.LanguageCPP, "cs": LanguageCsharp.LanguageCsharp, "py": LanguagePython.LanguagePython}[kind]()
+    evs = []
+    for r in table:
+        if r[1] != "" and r[1].lower() != "none" and r[1] not in evs:
+            evs.append(r[1])
+    evs += [n for n in iface.StructNames() if n not in evs]
+
+    def sig(nm, wd):
+        for st in iface.All():
+            if st.Name == nm:
+                return lang.ParameterString(lang.GetFactoryCreateParams(st, iface, wd))
+        return ""
+    return [[nm, sig(nm, False), sig(nm, True)] for nm in evs]
+
+
 def make_iface(rng, table, kind, usertags, nstructs=None):
     iface = kj.events_interface(rng, table, lang=kind)
     for k, v in usertags.items():
